@@ -3,7 +3,7 @@ import ast
 
 from ..model import AnalysisError, unparse, walk_local
 from ..paths import Evaluator, is_c, show, C, S, NONE, subterms
-from .common import guards_of, trace_tail
+from .common import guards_of, trace_tail, const_right
 
 PROPERTY = 'C20'
 EXPLANATION = (
@@ -151,6 +151,7 @@ class LevelWalk:
             return outs
         if isinstance(test, ast.UnaryOp) and isinstance(test.op, ast.Not):
             return [(not truth, a2) for truth, a2 in self._eval_test(test.operand, assume)]
+        test = const_right(test)
         key = ast.dump(test)
         if key in assume:
             return [(assume[key], dict(assume))]
@@ -425,9 +426,11 @@ def rule_saved_level_none(ctx, rid):
         ok = False
         for t, pol in guards:
             for cj in (t.values if isinstance(t, ast.BoolOp) and isinstance(t.op, ast.And) and pol else [t]):
-                if pol and isinstance(cj, ast.Compare) and len(cj.ops) == 1 and isinstance(cj.ops[0], ast.IsNot) \
+                if isinstance(cj, ast.Compare) and len(cj.ops) == 1 \
                         and isinstance(cj.left, ast.Name) and cj.left.id in saved \
-                        and isinstance(cj.comparators[0], ast.Constant) and cj.comparators[0].value is None:
+                        and isinstance(cj.comparators[0], ast.Constant) and cj.comparators[0].value is None \
+                        and ((pol and isinstance(cj.ops[0], (ast.IsNot, ast.NotEq)))
+                             or (not pol and isinstance(cj.ops[0], (ast.Is, ast.Eq)))):
                     ok = True
         if not ok:
             bad = use
